@@ -3,10 +3,12 @@ package vp
 import (
 	"context"
 	"encoding/json"
+	"fmt"
 	"io"
 	"net"
 	"os"
 	"os/exec"
+	"strings"
 	"sync"
 	"sync/atomic"
 	"time"
@@ -26,8 +28,9 @@ type HostCfg struct {
 	AllowedSet     bool           `json:"allowed_set"` // true: use Allowed even if empty
 	TLS            string         `json:"tls"`         // "", "static", "auto"
 	Mux            bool           `json:"mux"`
-	Launch         string         `json:"launch"`  // "cmd" (default), "runner"
-	Forward        bool           `json:"forward"` // runner launch: publish Unix sockets across as loopback TCP forwards
+	Launch         string         `json:"launch"`    // "cmd" (default), "runner"
+	Forward        bool           `json:"forward"`   // runner launch: publish Unix sockets across as loopback TCP forwards
+	Translate      string         `json:"translate"` // runner launch: "tcpforward" (same as Forward) or "symlink" (the plugin sees the socket directory under another path)
 	StartTimeoutMs int            `json:"start_timeout_ms"`
 	SkipHostEnv    bool           `json:"skip_host_env"`
 	TempDir        string         `json:"temp_dir"`
@@ -42,9 +45,10 @@ type WrapRunner struct {
 	Cmd    *exec.Cmd
 	TmpDir string
 
-	Forward bool
-	fwdMu   sync.Mutex
-	fwd     []net.Listener
+	Forward    bool
+	PluginView string // the path under which the plugin sees TmpDir (a symlink), "" = the same path
+	fwdMu      sync.Mutex
+	fwd        []net.Listener
 }
 
 func (w *WrapRunner) Start(ctx context.Context) error { w.Starts.Add(1); return w.Runner.Start(ctx) }
@@ -56,6 +60,9 @@ func (w *WrapRunner) Kill(ctx context.Context) error {
 	}
 	w.fwd = nil
 	w.fwdMu.Unlock()
+	if w.PluginView != "" {
+		os.Remove(w.PluginView)
+	}
 	return w.Runner.Kill(ctx)
 }
 
@@ -91,7 +98,16 @@ func (w *WrapRunner) forward(path string) (string, error) {
 	return ln.Addr().String(), nil
 }
 
+// With PluginView set the plugin sees the socket directory under another path than the host does
+// (a bind mount): each side's addresses have to be translated for the other, and an address handed
+// to the translation of the wrong direction is refused.
 func (w *WrapRunner) PluginToHost(network, addr string) (string, string, error) {
+	if w.PluginView != "" && network == "unix" {
+		if !strings.HasPrefix(addr, w.PluginView+"/") {
+			return "", "", fmt.Errorf("PluginToHost: %q is not a plugin-side address", addr)
+		}
+		return "unix", w.TmpDir + strings.TrimPrefix(addr, w.PluginView), nil
+	}
 	if !w.Forward || network != "unix" {
 		return w.Runner.PluginToHost(network, addr)
 	}
@@ -100,6 +116,12 @@ func (w *WrapRunner) PluginToHost(network, addr string) (string, string, error) 
 }
 
 func (w *WrapRunner) HostToPlugin(network, addr string) (string, string, error) {
+	if w.PluginView != "" && network == "unix" {
+		if !strings.HasPrefix(addr, w.TmpDir+"/") {
+			return "", "", fmt.Errorf("HostToPlugin: %q is not a host-side address", addr)
+		}
+		return "unix", w.PluginView + strings.TrimPrefix(addr, w.TmpDir), nil
+	}
 	if !w.Forward || network != "unix" {
 		return w.Runner.HostToPlugin(network, addr)
 	}
@@ -179,7 +201,7 @@ func NewPair(bin string, hc *HostCfg, pc *PluginCfg, extraEnv []string, logger h
 		cfg.UnixSocketConfig = &plugin.UnixSocketConfig{TempDir: hc.TempDir}
 	}
 	if hc.Launch == "runner" {
-		p.Wrap = &WrapRunner{Forward: hc.Forward}
+		p.Wrap = &WrapRunner{Forward: hc.Forward || hc.Translate == "tcpforward"}
 		cfg.RunnerFunc = func(l hclog.Logger, c *exec.Cmd, tmpDir string) (runner.Runner, error) {
 			// the template command has an empty path: run our binary with the prepared environment
 			real := exec.Command(bin)
@@ -189,6 +211,15 @@ func NewPair(bin string, hc *HostCfg, pc *PluginCfg, extraEnv []string, logger h
 			r, err := cmdrunner.NewCmdRunner(l, real)
 			if err != nil {
 				return nil, err
+			}
+			if hc.Translate == "symlink" {
+				view := tmpDir + ".pluginview"
+				os.Remove(view)
+				if err := os.Symlink(tmpDir, view); err != nil {
+					return nil, err
+				}
+				p.Wrap.PluginView = view
+				real.Env = append(real.Env, "PLUGIN_UNIX_SOCKET_DIR="+view)
 			}
 			p.Wrap.Runner = r
 			p.Wrap.Cmd = real
